@@ -55,8 +55,28 @@ def cleanup_now() -> None:
     _cleanup()
 
 
-def reexec_with_fixed_hashseed() -> None:
+def _setarch_prefix() -> list[str]:
+    """``setarch <machine> -R`` (address-space layout randomisation off) when it works here."""
+    import subprocess
+
+    exe = shutil.which("setarch")
+    if not exe:
+        return []
+    pre = [exe, os.uname().machine, "-R"]
+    try:
+        if subprocess.run(pre + ["true"], capture_output=True, timeout=20).returncode == 0:
+            return pre
+    except Exception:  # noqa: BLE001
+        pass
+    return []
+
+
+def reexec_with_fixed_hashseed(no_aslr: bool = False) -> None:
     """Re-execute the launcher with PYTHONHASHSEED=0 unless a value is already pinned.
+
+    ``no_aslr`` (replay processes): additionally switch address-space layout randomisation off,
+    so that a violation which depends on object addresses (an id()-keyed memo in the code under
+    test) replays identically in every fresh process.
 
     The harness never iterates over hash-ordered containers for a decision, but pinning the
     value removes the interpreter's own hash randomisation from the picture; the determinism
@@ -64,10 +84,16 @@ def reexec_with_fixed_hashseed() -> None:
     """
     if os.environ.get("VERIF_KEEP_HASHSEED") == "1":
         return
-    if os.environ.get("PYTHONHASHSEED") != "0":
+    want_aslr_off = no_aslr and os.environ.get("VERIF_ASLR_OFF") is None
+    if os.environ.get("PYTHONHASHSEED") != "0" or want_aslr_off:
         env = dict(os.environ)
         env["PYTHONHASHSEED"] = "0"
-        os.execve(PYTHON, [PYTHON] + sys.argv, env)
+        pre: list[str] = []
+        if want_aslr_off:
+            pre = _setarch_prefix()
+            env["VERIF_ASLR_OFF"] = "1" if pre else "unavailable"
+        argv = pre + [PYTHON] + sys.argv
+        os.execve(argv[0], argv, env)
 
 
 def import_chartparse() -> None:
